@@ -280,6 +280,7 @@ func recordLimit(p *core.Prog, r *core.Run, m *echModel, rule string) {
 		r.Undecided(rule, "readRecord", "-", "function not found")
 		return
 	}
+	fullReads(p, r, rr, rule)
 	for _, fn := range []*ssa.Function{rr, m.write} {
 		n := 0
 		for _, b := range fn.Blocks {
@@ -345,6 +346,26 @@ func recordLimit(p *core.Prog, r *core.Run, m *echModel, rule string) {
 		}
 		r.Check(rule, p.FuncName(fn)+":limit-tests", n == 1, p.Pos(fn.Pos()), "exactly one record-length limit test (found %d)", n)
 	}
+}
+
+// fullReads: the record reader takes the header and the body off the
+// transport with reads that only succeed when the buffer is full (io.ReadFull,
+// or io.ReadAtLeast with the buffer's length): a plain Read may return a part
+// of what a TCP segment boundary split, and the rest of the record would be
+// taken for the next header.
+func fullReads(p *core.Prog, r *core.Run, rr *ssa.Function, rule string) {
+	n := 0
+	for _, s := range transportReads(p, []*ssa.Function{rr}) {
+		n++
+		full := s.X.Name == "io.ReadFull"
+		if s.X.Name == "io.ReadAtLeast" && len(s.X.Args) == 3 {
+			if l := s.X.Args[2]; l.Op == "call" && l.Name == "len" && l.Args[0].String() == s.X.Args[1].String() {
+				full = true
+			}
+		}
+		r.Check(rule, fmt.Sprintf("readRecord:full-read#%d", n), full, p.InstrPos(s.Instr), "%s: the record reader reads from the transport only with calls that fill the buffer or fail", s.X.Name)
+	}
+	r.Check(rule, "readRecord:full-reads", n >= 1, p.Pos(rr.Pos()), "the record reader's reads from the transport were found (%d)", n)
 }
 
 // c07Buffers: every store to the two byte buffers is one of the expected
